@@ -4,7 +4,7 @@ import math
 import numpy as np
 from hypothesis import strategies as st
 
-from vlib.harness import Sub, Violation
+from vlib.harness import Sub, Violation, call_with_timeout
 from vlib.refmodel import fock, real_heralded_amp
 
 PROPERTY = "C12"
@@ -28,6 +28,15 @@ ONE_Q = ["h", "x", "y", "z", "s", "sdg", "t", "tdg", "sx"]
 ROT = ["rx", "ry", "rz", "p"]
 angle = st.one_of(st.sampled_from([0.0, math.pi, -math.pi, math.pi / 2, 2 * math.pi, 7.5, -13.0]),
                   st.floats(-4 * math.pi, 4 * math.pi, allow_nan=False))
+
+
+@st.composite
+def registers(draw, nq):
+    """None (one register) or a split of the qubits into 2-3 registers (qiskit circuits are often built so)."""
+    if nq < 2 or draw(st.integers(0, 2)) > 0:
+        return None
+    cut = sorted(draw(st.lists(st.integers(1, nq - 1), unique=True, min_size=1, max_size=min(2, nq - 1))))
+    return [b - a for a, b in zip([0, *cut], [*cut, nq])]
 
 
 @st.composite
@@ -67,7 +76,7 @@ def qc_case(draw, forced=False):
             gates.append([draw(st.sampled_from(["ccx", "ccz"])), list(qs), []])
         else:
             gates.append([draw(st.sampled_from(ONE_Q)), [draw(st.integers(0, nq - 1))], []])
-    return {"nq": nq, "gates": gates, "aps": aps}
+    return {"nq": nq, "gates": gates, "aps": aps, "regs": draw(registers(nq))}
 
 
 @st.composite
@@ -84,7 +93,7 @@ def far_case(draw):
     gates.append([draw(st.sampled_from(["cx", "cz"])), [a, b], []])
     for _ in range(draw(st.integers(0, 2))):
         gates.append([draw(st.sampled_from(ROT)), [draw(st.integers(0, nq - 1))], [draw(angle)]])
-    return {"nq": nq, "gates": gates, "aps": draw(st.booleans())}
+    return {"nq": nq, "gates": gates, "aps": draw(st.booleans()), "regs": draw(registers(nq))}
 
 
 def far_fixed_cases(full):
@@ -98,10 +107,14 @@ def far_fixed_cases(full):
 
 
 def build_qiskit(case):
-    from qiskit import QuantumCircuit
-    qc = QuantumCircuit(case["nq"])
+    from qiskit import QuantumCircuit, QuantumRegister
+    regs = case.get("regs")
+    if regs:
+        qc = QuantumCircuit(*[QuantumRegister(k, f"r{i}") for i, k in enumerate(regs)])
+    else:
+        qc = QuantumCircuit(case["nq"])
     for name, qs, ps in case["gates"]:
-        getattr(qc, name)(*ps, *qs)
+        getattr(qc, name)(*ps, *[qc.qubits[q] for q in qs])
     return qc
 
 
@@ -132,12 +145,15 @@ def run_convert(case):
     names = [g[0] for g in case["gates"]]
     labels = set()
     try:
-        circ, rules = qiskit_converter(qc, allow_post_selection=case["aps"])
+        circ, rules = call_with_timeout("qiskit_converter", 3, qiskit_converter, qc,
+                                        allow_post_selection=case["aps"])
     except ValueError as e:
         why = refusal_legit(case)
         if why is None:
             raise Violation(f"converter refused a convertible circuit: {e}", key="refused-convertible") from e
         return {"nontrivial": False, "labels": ["refused:" + why]}
+    except Violation:
+        raise
     except Exception as e:  # noqa: BLE001
         raise Violation(f"converter raised {type(e).__name__}: {e}", key="wrong-exception") from e
     if circ.input_modes != 2 * nq:
@@ -205,6 +221,8 @@ def run_convert(case):
         if name == "swap":
             labels.add("swap")
     labels.add("aps" if case["aps"] else "heralded-only")
+    if case.get("regs"):
+        labels.add("several-registers")
     nondiag = any(n in ("h", "x", "y", "sx", "rx", "ry") for n in names)
     return {"nontrivial": (n2 + n3 >= 1) and nondiag, "labels": sorted(labels)}
 
